@@ -14,7 +14,7 @@ EVIDENCE = dict(
          "members (1860 admit cases) and 1920 EPUB encryption configurations (rights file, subsets of {two spine documents, three fonts, "
          "image} x 5 algorithm URIs x 3 URI spellings); each is materialised as a minimal valid document and offered to "
          "format.DetectFromReader and tabula.Open(..).Text(); every observation is validated by AdmissionTrace.tla. "
-         "Decoys also include the main part of an OOXML format with a package relationship naming it inside an ODF / EPUB package, and the signature bytes of another format behind the start of the file (HTML title / comment, stored first member of a package). Non-trivial = anything other than the plain own-extension case.",
+         "Decoys also include the main part of an OOXML format with a package relationship naming it inside an ODF / EPUB package, and the signature bytes of another format behind the start of the file (HTML title / comment, stored first member of a package). Every decision is asked three times of ONE extractor (PageCount, Text, Text of a derived extractor) and must be the same each time. Non-trivial = anything other than the plain own-extension case.",
     assumptions=["the minimal documents (harness/cmd/driver/c20.go) are valid by ECMA-376 / ODF 1.2 / EPUB 3"],
 )
 
